@@ -7,6 +7,7 @@ import (
 	"fmt"
 	"os"
 	"path/filepath"
+	"reflect"
 	"sort"
 	"strings"
 	"time"
@@ -87,14 +88,17 @@ func (c *Ctx) Check(ok bool, rule, inst, construct, held, violated string) bool 
 
 // importFrom evaluates another property's rules on the same program and adopts the
 // obligations whose rule id has one of the given prefixes, relabelled under rule.
-var importDepth int
+var importStack []uintptr
 
 func (c *Ctx) importFrom(check func(*Ctx), rule string, prefixes ...string) {
-	if importDepth > 4 {
-		panic("import cycle between property checks (importFrom nested more than 4 deep) at rule " + rule)
+	id := reflect.ValueOf(check).Pointer()
+	for _, x := range importStack {
+		if x == id {
+			panic("import cycle between property checks at rule " + rule)
+		}
 	}
-	importDepth++
-	defer func() { importDepth-- }()
+	importStack = append(importStack, id)
+	defer func() { importStack = importStack[:len(importStack)-1] }()
 	sub := NewCtx(c.P, c.Prop, c.Tier)
 	check(sub)
 	n := 0
